@@ -28,8 +28,11 @@ def leaf_pool(draw, profile="small", allow_const=False, max_bool=5, max_int=3, m
         bool_ids = list(draw(st.permutations(ODD_IDS)))[:k] + bool_ids
     for i in range(nb):
         leaf = {"k": "leaf", "id": bool_ids[i], "b": [0, 1]}
-        if draw(st.integers(0, 3)) == 0:
+        r_ = draw(st.integers(0, 11))
+        if r_ <= 2:
             leaf["str"] = True
+        elif r_ == 3:
+            leaf["sub"] = True      # an instance of a user-defined subclass of puan.variable
         if allow_const and draw(st.integers(0, 5)) == 0:
             c = draw(st.integers(0, 1))
             leaf = {"k": "leaf", "id": bool_ids[i], "b": [c, c]}
@@ -139,6 +142,8 @@ def _node(ctx, depth, negating=False):
     node["id"] = ctx.new_id() if explicit else None
     if explicit and d(st.integers(0, 7)) == 0:
         node["idvar"] = True
+    if kind in ("All", "Any", "Xor", "ExactlyOne", "XNor") and d(st.integers(0, 5)) == 0:
+        node["fl"] = True       # built through <class>.from_list
     if kind in ("AtLeast", "AtMost") and d(st.integers(0, 5)) == 0:
         node["seq"] = d(st.sampled_from(["tuple", "iter", "gen"]))      # children handed over as another kind of iterable
     if kind == "AtLeast" and ctx.positive_only:
